@@ -19,6 +19,11 @@ HERE = os.path.dirname(os.path.abspath(__file__))
 
 
 def emit_mir():
+    with core.FileLock(os.path.join(core.BUILD, "mir.lock")):
+        return _emit_mir()
+
+
+def _emit_mir():
     """(re-)emit MIR of the prqlc lib from /repo's current tree; cached by tree hash"""
     th = core.tree_hash()
     out = os.path.join(MIR_DIR, f"prqlc-{th}.mir")
@@ -47,6 +52,11 @@ def emit_mir():
 
 
 def emit_mir_parser():
+    with core.FileLock(os.path.join(core.BUILD, "mir.lock")):
+        return _emit_mir_parser()
+
+
+def _emit_mir_parser():
     """MIR of the prqlc-parser lib (lexer: literal printing); cached by tree hash"""
     th = core.tree_hash()
     out = os.path.join(MIR_DIR, f"parser-{th}.mir")
@@ -74,6 +84,11 @@ def emit_mir_parser():
 
 
 def emit_mir_sqlparser():
+    with core.FileLock(os.path.join(core.BUILD, "mir.lock")):
+        return _emit_mir_sqlparser()
+
+
+def _emit_mir_sqlparser():
     """MIR of the sqlparser dependency as the workspace resolves it (only the `ast::value` bodies and the escape helpers are kept:
     the Display code that writes every literal prqlc emits); cached by Cargo.lock hash"""
     lock = open(os.path.join(core.REPO, "Cargo.lock"), "rb").read()
